@@ -71,6 +71,8 @@ pub struct World {
     pub watchdog: Option<String>,
     /// bumped by auxiliary futures (e.g. a bare Connection reader) so that the barrier sees their progress
     pub activity: std::rc::Rc<std::cell::Cell<u64>>,
+    /// largest step of virtual time taken by advance_to between two drains of sockets and command queue
+    pub max_step: Duration,
     next_peer: usize,
 }
 
@@ -87,6 +89,7 @@ impl World {
             manager_dead: None,
             watchdog: None,
             activity: std::rc::Rc::new(std::cell::Cell::new(0)),
+            max_step: Duration::from_secs(5),
             next_peer: 0,
         }
     }
@@ -443,7 +446,7 @@ impl World {
             if now >= t || self.manager_dead.is_some() {
                 break;
             }
-            let step = std::cmp::min(t - now, Duration::from_secs(5));
+            let step = std::cmp::min(t - now, self.max_step);
             let deadline = Instant::now() + step;
             let s = tokio::time::sleep_until(deadline);
             let _ = self.pump(s).await;
